@@ -7,6 +7,11 @@ VERIF = os.path.dirname(os.path.dirname(os.path.abspath(__file__)))
 ALL = ["C%02d" % i for i in range(1, 21)]
 
 CLAIMED = {
+    "C12": dict(
+        text="Coq theorems: may_create topo known self r = true <-> r is a known node, r <> self, and (no topology configured or r is listed among self's neighbours) — directed topologies, nodes absent from the topology, unknown ids; refusal kinds in the order cmd_epr checks them. is_adjacent is regenerated from factory.py on every run and proved equal to the model; the order of the three checks in cmd_epr before the first cmd_new is a generated obligation. Tie: the real NetQASMFactory.is_adjacent / cmd_epr (sentinel cmd_new) over ALL directed topologies on <= 3 nodes x all ordered pairs, random up to 5 nodes.",
+        design="9.5/C12 (notes/C12.md)",
+        note="Trusted: Coq kernel; ast translator translate/adjacent.py; the end-to-end clause 'a refused request creates no qubits anywhere' is covered by the NetQASM harness part when present (see notes).",
+        technique="Coq proof (iff decision theorem) + source-to-Coq translator with generated equality lemma + exhaustive small-domain correspondence"),
     "C13": dict(
         text="Coq theorems for all tableau sizes: each of the 8 gate kernels is the Clifford conjugation (sign included) of the Pauli string a row denotes; "
              "conjugation tables proved against Gaussian-integer matrices; the kernels are regenerated from stabilizer_states.py on every run and proved equal to the model; "
@@ -55,6 +60,16 @@ CLAIMED = {
         design="9.5/C17 (notes/C17.md)",
         note="Trusted: Coq kernel; networkx tree generator (validated per sample, not proved); Python's random for the choice sequence (recorded).",
         technique="Coq proof (graph predicates for all n, induction) + vm_compute correspondence"),
+    "C18": dict(
+        text="Coq theorems over Model P (store file, user override file, per-process cache): for single-writer histories of set/reset/reload/spawn of any length a later process reads the written value unless the user file overrides that key; reset restores every documented default in the store; user-file keys take precedence whenever overrides are enabled and are ignored otherwise. Tie: every 'process started later' is a fresh interpreter on a scratch copy of the package and a scratch HOME; ordered whole caches and the store file are compared with the model after every step.",
+        design="9.5/C18 (notes/C18.md)",
+        note="Trusted: Coq kernel; json round trip of JSON-native scalars (exercised, not proved); the lost update between two long-lived writers is stated as a remark with witness (outside the property's quantifier).",
+        technique="Coq proof (invariants by induction over histories) + vm_compute correspondence with fresh interpreters"),
+    "C19": dict(
+        text="Coq theorems over Model Z: with noise disabled the decision is 'nothing' for every idle time; for 0 <= p <= 1/4 the X/Y/Z decision sets are the disjoint intervals [0,p), [p,2p), [2p,3p) of length p inside [0,1) (exact rationals; plus a counting form for all N); the applied Pauli touches only the addressed position (sign flips exactly on anticommuting generators); 0 <= (1-exp(-t/T1))/4 < 1/4 over Coq's reals. Translators: the threshold comparisons and the rate expression are regenerated from quantum.py and proved equal to the model; every gate/measurement method calls the noise routine before touching the register (generated obligation). Tie: the real _apply_random_pauli_noise on a real simulatedQubit with patched clock and draw at thresholds +-1 ulp, exact rational comparison of doubles.",
+        design="9.5/C19 (notes/C19.md)",
+        note="Trusted: Coq kernel; stdlib axioms used ONLY by the three rate theorems in Properties/C19_rate.v: ClassicalDedekindReals.sig_forall_dec, ClassicalDedekindReals.sig_not_dec, FunctionalExtensionality.functional_extensionality_dep, Classical_Prop.classic (all declared by the Coq standard library, pulled in by Reals/exp_increasing); numpy exp is not modelled (p is taken from the implementation and its range is checked). Observation only: in two-qubit gates only the control's idle clock is consulted.",
+        technique="Coq proof (interval arithmetic over Q, Reals for the rate bound) + translators with generated lemmas + exact-rational correspondence"),
 }
 
 PENDING_REASON = "machinery for this property is not built yet in this revision (no claim made); see DESIGN.md section 4"
